@@ -534,17 +534,21 @@ func lkRun(t *testing.T, r *vfRand, c *lkCase, public bool, hooks ...*lkHooks) *
 	synctest.Wait()
 	o.rtAfter = d.routingTable.ListPeers()
 	stampsAfter := d.routingTable.GetTrackedCplsForRefresh()
-	if len(stampsAfter) != len(stampsBefore) {
-		o.pubMoved = true
-	}
-	for i := range stampsBefore {
-		if i < len(stampsAfter) && !stampsAfter[i].Equal(stampsBefore[i]) {
-			o.pubMoved = true
+	// the refresh stamp of the key's bucket only: the list of tracked buckets itself grows
+	// and shrinks with the routing table's content, which a lookup changes as well.  Nothing
+	// but ResetCplRefreshedAtForID writes a stamp, so a bucket not yet tracked before has the
+	// zero stamp.
+	keyCpl := kb.CommonPrefixLen(kb.ConvertKey(c.key), d.selfKey)
+	if keyCpl < len(stampsAfter) {
+		var before time.Time
+		if keyCpl < len(stampsBefore) {
+			before = stampsBefore[keyCpl]
 		}
+		o.pubMoved = !stampsAfter[keyCpl].Equal(before)
 	}
 	o.pubErr = err != nil
 	o.addrsNonEmpty = len(d.FilteredAddrs()) > 0
-	o.pubMovedObservable = kb.CommonPrefixLen(kb.ConvertKey(c.key), d.selfKey) < len(stampsBefore)
+	o.pubMovedObservable = keyCpl < len(stampsAfter)
 	return o
 }
 
